@@ -1,7 +1,12 @@
 ---------------------------- MODULE FsCursorJudge ---------------------------
-EXTENDS FsCursor, Json, IOUtils
+EXTENDS FsCursor, Json, IOUtils, SequencesExt
 VARIABLES tid, i, st, verdict, devs
-NormObs(op, o) == o
+\* a recorded trace carries the delivered positions as the maximal runs <<first, last>> of consecutive positions (a result
+\* may have thousands of rows); the specification speaks about the positions themselves.  The encoding loses nothing:
+\* <<<<1, 3>>, <<3, 3>>, <<7, 8>>>> stands for <<1, 2, 3, 3, 7, 8>>
+\* (FoldLeft is evaluated iteratively: an implementation handing out thousands of rows in disorder gives thousands of runs)
+Expand(runs) == FoldLeft(LAMBDA acc, r : acc \o Range(r[1], r[2]), <<>>, runs)
+NormObs(op, o) == [o EXCEPT !.rows = Expand(@)]
 NormOp(op) == op
 Traces == ndJsonDeserialize(IOEnv.TRACE_FILE)
 KnownSeq == JsonDeserialize(IOEnv.KNOWN_FILE).known
